@@ -345,6 +345,13 @@ def one_program(col, pid, rng, feats, depth, pidx, reps=3, clauses=True, flavour
         probes.State.ref_counts = rcounts
         col.evaluations += 1
         rp2 = dict(rp, args=jsonable(args), rep=rep, failing_function=failing)
+        byp = [e for e in log if e["kind"] == "BYPASS"]
+        if byp:
+            # the controller's wall-clock safety valve fired (loaded machine): the case is excluded and counted; the runner
+            # turns the check inconclusive only if such cases are more than a negligible fraction
+            col.counters["cases_skipped_controller_bypassed"] += 1
+            col.soft_inconclusive.append("controller bypassed: %s" % byp[0].get("why"))
+            continue
         col.generic(log, rp2)
         seq_overlap(col, prog, log, rp2, pid=pid)
         if failing is not None and ref[0] == "exc" and isinstance(ref[1], probes.Injected):
@@ -362,10 +369,8 @@ def one_program(col, pid, rng, feats, depth, pidx, reps=3, clauses=True, flavour
             col.sample(dict(source="\n".join(G.all_sources(prog)), args=short(args), cfg=cfg, value=short(res[1] if res[0] == "ok" else res, 300),
                             executed=dict(Counter(e["fn"] for e in log if e["kind"] == "FENTER"))))
         for e in log:
-            if e["kind"] in ("SPIN", "DEADLOCK", "BYPASS"):
+            if e["kind"] in ("SPIN", "DEADLOCK"):
                 col.counters["event_" + e["kind"]] += 1
-                if e["kind"] == "BYPASS":
-                    col.inconclusive.append("controller bypassed: %s" % e.get("why"))
 
 
 def rejected_description(k):
